@@ -1,14 +1,114 @@
 package risc
 
-import "github.com/teivah/majorana/verifvp"
+// C02 harness: one instruction, built directly as its op struct with concrete
+// register names (job parameter "regs") and SYMBOLIC register values,
+// immediates, offsets, pc, branch target and memory bytes. The oracle is the
+// RV32IM definition written out below with explicit uint32 conversions; it does
+// not call common/bytes or any function of opcodes.go.
 
-func verifCtx() (*Context, int32, int32) {
-	a := verifvp.I32("a")
-	b := verifvp.I32("b")
-	ctx := NewContext(false, 8, false)
-	ctx.Registers[T0] = a
-	ctx.Registers[T1] = b
-	return ctx, a, b
+import vp "github.com/teivah/majorana/verifvp"
+
+type c02env struct {
+	ctx *Context
+	v   map[RegisterType]int32
+}
+
+var c02regs = []RegisterType{Ra, T0, T1, T2}
+
+func c02reg(s string) RegisterType {
+	switch s {
+	case "zero":
+		return Zero
+	case "ra":
+		return Ra
+	case "t0":
+		return T0
+	case "t1":
+		return T1
+	case "t2":
+		return T2
+	}
+	panic("c02reg " + s)
+}
+
+// c02pat splits "t2,t0,t1".
+func c02pat() []RegisterType {
+	s := vp.S("regs")
+	var out []RegisterType
+	start := 0
+	for i := 0; i <= len(s); i++ {
+		if i == len(s) || s[i] == ',' {
+			if i > start {
+				out = append(out, c02reg(s[start:i]))
+			}
+			start = i + 1
+		}
+	}
+	return out
+}
+
+func c02new() *c02env {
+	rat := vp.N("rat") == 1
+	e := &c02env{ctx: NewContext(false, 16, rat), v: map[RegisterType]int32{}}
+	e.v[Ra] = vp.I32("ra")
+	e.v[T0] = vp.I32("t0")
+	e.v[T1] = vp.I32("t1")
+	e.v[T2] = vp.I32("t2")
+	for _, r := range c02regs {
+		e.ctx.Registers[r] = e.v[r]
+	}
+	if rat {
+		e.ctx.InitRAT()
+	}
+	return e
+}
+
+func (e *c02env) val(r RegisterType) int32 {
+	if r == Zero {
+		return 0
+	}
+	return e.v[r]
+}
+
+// unchanged: Run/MemoryRead/MemoryWrite are pure with respect to the context.
+func (e *c02env) unchanged() {
+	ok := len(e.ctx.Registers) == len(c02regs) && len(e.ctx.Transaction) == 0
+	for _, r := range c02regs {
+		ok = ok && e.ctx.Registers[r] == e.v[r]
+		ok = ok && registerRead(e.ctx, Forward{}, r, 0) == e.v[r]
+	}
+	_, hasZero := e.ctx.Registers[Zero]
+	vp.Assert(ok && !hasZero, "ctx-unchanged")
+	vp.Assert(registerRead(e.ctx, Forward{}, Zero, 0) == 0, "zero-reads-0")
+}
+
+func c02set(rs []RegisterType) uint64 {
+	var m uint64
+	for _, r := range rs {
+		if r != Zero {
+			m |= 1 << uint(r)
+		}
+	}
+	return m
+}
+
+func c02decl(op InstructionRunner, reads, writes []RegisterType) {
+	vp.Assert(c02set(op.ReadRegisters()) == c02set(reads), "read-set")
+	vp.Assert(c02set(op.WriteRegisters()) == c02set(writes), "write-set")
+}
+
+func (e *c02env) regResult(exe Execution, err error, rd RegisterType, want int32) {
+	vp.Assert(err == nil, "err")
+	if err != nil {
+		return
+	}
+	vp.Assert(exe.RegisterChange && !exe.MemoryChange && !exe.Return, "flags")
+	if rd == Zero {
+		vp.Assert(exe.Register == Zero && exe.RegisterValue == 0, "zero-rd")
+	} else {
+		vp.Assert(exe.Register == rd, "rd")
+		vp.Assert(exe.RegisterValue == want, "value")
+	}
 }
 
 func b2i(c bool) int32 {
@@ -18,53 +118,335 @@ func b2i(c bool) int32 {
 	return 0
 }
 
-func VerifC02Alu() {
-	ctx, a, b := verifCtx()
-	type tc struct {
-		name string
-		op   InstructionRunner
-		want int32
-	}
-	sh := uint32(b) & 31
-	cases := []tc{
-		{"add", &add{rd: T2, rs1: T0, rs2: T1}, a + b},
-		{"sub", &sub{rd: T2, rs1: T0, rs2: T1}, a - b},
-		{"xor", &xor{rd: T2, rs1: T0, rs2: T1}, a ^ b},
-		{"mul", &mul{rd: T2, rs1: T0, rs2: T1}, a * b},
-		{"slt", &slt{rd: T2, rs1: T0, rs2: T1}, b2i(a < b)},
-		{"sltu", &sltu{rd: T2, rs1: T0, rs2: T1}, b2i(uint32(a) < uint32(b))},
-		{"sll", &sll{rd: T2, rs1: T0, rs2: T1}, int32(uint32(a) << sh)},
-		{"srl", &srl{rd: T2, rs1: T0, rs2: T1}, int32(uint32(a) >> sh)},
-		{"sra", &sra{rd: T2, rs1: T0, rs2: T1}, a >> sh},
-	}
-	for _, c := range cases {
-		exe, err := c.op.Run(ctx, nil, 0, nil, 0)
-		verifvp.Assert(err == nil, c.name+":err")
-		verifvp.Assert(exe.RegisterChange && exe.Register == T2, c.name+":reg")
-		verifvp.Assert(exe.RegisterValue == c.want, c.name+":value")
-	}
-	verifvp.Cover("end")
+func c02pc() int32 {
+	pc := vp.I32("pc")
+	vp.Assume(pc >= 0 && pc < 1<<20 && pc%4 == 0)
+	return pc
 }
 
-func VerifC02Mem() {
-	ctx, a, b := verifCtx()
-	off := verifvp.I32("off")
-	// sw t1, off(t0): stores b at a+off
-	st := &sw{rs: T1, offset: off, rd: T0}
-	exe, err := st.Run(ctx, nil, 0, nil, 0)
-	verifvp.Assert(err == nil && exe.MemoryChange && !exe.RegisterChange, "sw:flags")
-	_ = a
-	_ = exe
-	// lw from four symbolic bytes
-	m0, m1, m2, m3 := verifvp.I8("m0"), verifvp.I8("m1"), verifvp.I8("m2"), verifvp.I8("m3")
-	ld := &lw{rd: T2, offset: off, rs: T0}
-	e2, err := ld.Run(ctx, nil, 0, []int8{m0, m1, m2, m3}, 0)
-	want := int32(uint32(uint8(m0)) | uint32(uint8(m1))<<8 | uint32(uint8(m2))<<16 | uint32(uint8(m3))<<24)
-	verifvp.Assert(err == nil && e2.RegisterValue == want, "lw:value")
-	h := &lh{rd: T2, offset: off, rs: T0}
-	e3, _ := h.Run(ctx, nil, 0, []int8{m0, m1}, 0)
-	wanth := int32(int16(uint16(uint8(m0)) | uint16(uint8(m1))<<8))
-	verifvp.Assert(e3.RegisterValue == wanth, "lh:value")
-	_ = b
-	verifvp.Cover("end")
+func c02noMem(e *c02env, op InstructionRunner) {
+	vp.Assert(len(op.MemoryRead(e.ctx, 0)) == 0 && len(op.MemoryWrite(e.ctx, 0)) == 0, "no-mem")
+}
+
+// VerifC02 checks the instruction named by job parameter "op".
+func VerifC02() {
+	mn := vp.S("op")
+	p := c02pat()
+	e := c02new()
+	pc := c02pc()
+	switch mn {
+	case "add", "sub", "and", "or", "xor", "mul", "div", "rem", "sll", "srl", "sra", "slt", "sltu":
+		rd, rs1, rs2 := p[0], p[1], p[2]
+		a, b := e.val(rs1), e.val(rs2)
+		var op InstructionRunner
+		var want int32
+		sh := uint32(b) & 31
+		switch mn {
+		case "add":
+			op, want = &add{rd: rd, rs1: rs1, rs2: rs2}, a+b
+		case "sub":
+			op, want = &sub{rd: rd, rs1: rs1, rs2: rs2}, a-b
+		case "and":
+			op, want = &and{rd: rd, rs1: rs1, rs2: rs2}, a&b
+		case "or":
+			op, want = &or{rd: rd, rs1: rs1, rs2: rs2}, a|b
+		case "xor":
+			op, want = &xor{rd: rd, rs1: rs1, rs2: rs2}, a^b
+		case "mul":
+			op, want = &mul{rd: rd, rs1: rs1, rs2: rs2}, a*b
+		case "sll":
+			op, want = &sll{rd: rd, rs1: rs1, rs2: rs2}, int32(uint32(a)<<sh)
+		case "srl":
+			op, want = &srl{rd: rd, rs1: rs1, rs2: rs2}, int32(uint32(a)>>sh)
+		case "sra":
+			op, want = &sra{rd: rd, rs1: rs1, rs2: rs2}, a>>sh
+		case "slt":
+			op, want = &slt{rd: rd, rs1: rs1, rs2: rs2}, b2i(a < b)
+		case "sltu":
+			op, want = &sltu{rd: rd, rs1: rs1, rs2: rs2}, b2i(uint32(a) < uint32(b))
+		case "div":
+			op = &div{rd: rd, rs1: rs1, rs2: rs2}
+		case "rem":
+			op = &rem{rd: rd, rs1: rs1, rs2: rs2}
+		}
+		c02decl(op, []RegisterType{rs1, rs2}, []RegisterType{rd})
+		c02noMem(e, op)
+		if mn == "div" || mn == "rem" {
+			// division by zero is an error value (never a panic); otherwise truncated
+			// signed division, MinInt32 / -1 wraps
+			if b == 0 {
+				vp.Cover("div0")
+				_, err := op.Run(e.ctx, nil, pc, nil, 0)
+				vp.Assert(err != nil, "div0-is-error")
+				e.unchanged()
+				vp.Cover("end")
+				return
+			}
+			if mn == "div" {
+				want = a / b
+			} else {
+				want = a % b
+			}
+		}
+		exe, err := op.Run(e.ctx, nil, pc, nil, 0)
+		e.regResult(exe, err, rd, want)
+		vp.Assert(!exe.PcChange, "no-pc-change")
+		e.unchanged()
+	case "addi", "andi", "ori", "xori", "slti", "slli", "srli", "srai":
+		rd, rs := p[0], p[1]
+		a := e.val(rs)
+		imm := vp.I32("imm")
+		var op InstructionRunner
+		var want int32
+		switch mn {
+		case "addi":
+			op, want = &addi{rd: rd, rs: rs, imm: imm}, a+imm
+		case "andi":
+			op, want = &andi{rd: rd, rs: rs, imm: imm}, a&imm
+		case "ori":
+			op, want = &ori{rd: rd, rs: rs, imm: imm}, a|imm
+		case "xori":
+			op, want = &xori{rd: rd, rs: rs, imm: imm}, a^imm
+		case "slti":
+			op, want = &slti{rd: rd, rs: rs, imm: imm}, b2i(a < imm)
+		case "slli":
+			vp.Assume(imm >= 0 && imm < 32)
+			op, want = &slli{rd: rd, rs: rs, imm: imm}, int32(uint32(a)<<uint32(imm))
+		case "srli":
+			vp.Assume(imm >= 0 && imm < 32)
+			op, want = &srli{rd: rd, rs: rs, imm: imm}, int32(uint32(a)>>uint32(imm))
+		case "srai":
+			vp.Assume(imm >= 0 && imm < 32)
+			op, want = &srai{rd: rd, rs: rs, imm: imm}, a>>uint32(imm)
+		}
+		c02decl(op, []RegisterType{rs}, []RegisterType{rd})
+		c02noMem(e, op)
+		exe, err := op.Run(e.ctx, nil, pc, nil, 0)
+		e.regResult(exe, err, rd, want)
+		vp.Assert(!exe.PcChange, "no-pc-change")
+		e.unchanged()
+	case "mv":
+		rd, rs := p[0], p[1]
+		op := &mv{rd: rd, rs: rs}
+		c02decl(op, []RegisterType{rs}, []RegisterType{rd})
+		c02noMem(e, op)
+		exe, err := op.Run(e.ctx, nil, pc, nil, 0)
+		e.regResult(exe, err, rd, e.val(rs))
+		vp.Assert(!exe.PcChange, "no-pc-change")
+		e.unchanged()
+	case "li", "lui", "auipc":
+		rd := p[0]
+		imm := vp.I32("imm")
+		var op InstructionRunner
+		var want int32
+		switch mn {
+		case "li":
+			op, want = &li{rd: rd, imm: imm}, imm
+		case "lui":
+			op, want = &lui{rd: rd, imm: imm}, int32(uint32(imm)<<12)
+		case "auipc":
+			op, want = &auipc{rd: rd, imm: imm}, pc+int32(uint32(imm)<<12)
+		}
+		c02decl(op, nil, []RegisterType{rd})
+		c02noMem(e, op)
+		exe, err := op.Run(e.ctx, nil, pc, nil, 0)
+		e.regResult(exe, err, rd, want)
+		vp.Assert(!exe.PcChange, "no-pc-change")
+		e.unchanged()
+	case "beq", "bne", "blt", "bge", "ble", "bltu", "bgeu", "beqz", "bnez":
+		var rs1, rs2 RegisterType
+		var op InstructionRunner
+		var taken bool
+		if mn == "beqz" || mn == "bnez" {
+			rs1 = p[0]
+			a := e.val(rs1)
+			if mn == "beqz" {
+				op, taken = &beqz{rs: rs1, label: "L"}, a == 0
+			} else {
+				op, taken = &bnez{rs: rs1, label: "L"}, a != 0
+			}
+			c02decl(op, []RegisterType{rs1}, nil)
+		} else {
+			rs1, rs2 = p[0], p[1]
+			a, b := e.val(rs1), e.val(rs2)
+			switch mn {
+			case "beq":
+				op, taken = &beq{rs1: rs1, rs2: rs2, label: "L"}, a == b
+			case "bne":
+				op, taken = &bne{rs1: rs1, rs2: rs2, label: "L"}, a != b
+			case "blt":
+				op, taken = &blt{rs1: rs1, rs2: rs2, label: "L"}, a < b
+			case "bge":
+				op, taken = &bge{rs1: rs1, rs2: rs2, label: "L"}, a >= b
+			case "ble":
+				op, taken = &ble{rs1: rs1, rs2: rs2, label: "L"}, a <= b
+			case "bltu":
+				op, taken = &bltu{rs1: rs1, rs2: rs2, label: "L"}, uint32(a) < uint32(b)
+			case "bgeu":
+				op, taken = &bgeu{rs1: rs1, rs2: rs2, label: "L"}, uint32(a) >= uint32(b)
+			}
+			c02decl(op, []RegisterType{rs1, rs2}, nil)
+		}
+		c02noMem(e, op)
+		target := vp.I32("target")
+		vp.Assume(target >= 0 && target < 1<<20 && target%4 == 0)
+		labels := map[string]int32{"L": target}
+		if vp.N("nolabel") == 1 {
+			// undefined label: an error value when the branch is taken, never a panic
+			labels = map[string]int32{"other": target}
+			exe, err := op.Run(e.ctx, labels, pc, nil, 0)
+			if taken {
+				vp.Assert(err != nil, "undefined-label-is-error")
+			} else {
+				vp.Assert(err == nil && !exe.PcChange, "not-taken")
+			}
+			e.unchanged()
+			vp.Cover("end")
+			return
+		}
+		exe, err := op.Run(e.ctx, labels, pc, nil, 0)
+		vp.Assert(err == nil, "err")
+		vp.Assert(!exe.RegisterChange && !exe.MemoryChange && !exe.Return, "flags")
+		if taken {
+			vp.Cover("taken")
+			vp.Assert(exe.PcChange, "decision")
+			vp.Assert(exe.NextPc == target, "target")
+		} else {
+			vp.Cover("not-taken")
+			vp.Assert(!exe.PcChange, "decision")
+		}
+		e.unchanged()
+	case "j", "jal":
+		target := vp.I32("target")
+		vp.Assume(target >= 0 && target < 1<<20 && target%4 == 0)
+		labels := map[string]int32{"L": target}
+		var op InstructionRunner
+		rd := Zero
+		if mn == "j" {
+			op = &j{label: "L"}
+			c02decl(op, nil, nil)
+		} else {
+			rd = p[0]
+			op = &jal{label: "L", rd: rd}
+			c02decl(op, nil, []RegisterType{rd})
+		}
+		c02noMem(e, op)
+		if vp.N("nolabel") == 1 {
+			_, err := op.Run(e.ctx, map[string]int32{"other": target}, pc, nil, 0)
+			vp.Assert(err != nil, "undefined-label-is-error")
+			e.unchanged()
+			vp.Cover("end")
+			return
+		}
+		exe, err := op.Run(e.ctx, labels, pc, nil, 0)
+		vp.Assert(err == nil, "err")
+		vp.Assert(exe.PcChange && exe.NextPc == target, "target")
+		vp.Assert(!exe.MemoryChange && !exe.Return, "flags")
+		if mn == "jal" {
+			e.regResult(exe, err, rd, pc+4)
+		} else {
+			vp.Assert(!exe.RegisterChange, "flags")
+		}
+		e.unchanged()
+	case "jalr":
+		rd, rs := p[0], p[1]
+		imm := vp.I32("imm")
+		op := &jalr{rd: rd, rs: rs, imm: imm}
+		c02decl(op, []RegisterType{rs}, []RegisterType{rd})
+		c02noMem(e, op)
+		exe, err := op.Run(e.ctx, nil, pc, nil, 0)
+		e.regResult(exe, err, rd, pc+4)
+		vp.Assert(exe.PcChange && exe.NextPc == e.val(rs)+imm, "target")
+		e.unchanged()
+	case "lb", "lh", "lw":
+		rd, rs := p[0], p[1]
+		off := vp.I32("off")
+		addr := e.val(rs) + off
+		m0, m1, m2, m3 := vp.I8("m0"), vp.I8("m1"), vp.I8("m2"), vp.I8("m3")
+		var op InstructionRunner
+		var want int32
+		var k int
+		switch mn {
+		case "lb":
+			op, k, want = &lb{rd: rd, offset: off, rs: rs}, 1, int32(m0)
+		case "lh":
+			op, k, want = &lh{rd: rd, offset: off, rs: rs}, 2, int32(int16(uint16(uint8(m0))|uint16(uint8(m1))<<8))
+		case "lw":
+			op, k, want = &lw{rd: rd, offset: off, rs: rs}, 4, int32(uint32(uint8(m0))|uint32(uint8(m1))<<8|uint32(uint8(m2))<<16|uint32(uint8(m3))<<24)
+		}
+		c02decl(op, []RegisterType{rs}, []RegisterType{rd})
+		addrs := op.MemoryRead(e.ctx, 0)
+		vp.Assert(len(addrs) == k, "load-addrs")
+		for i := 0; i < k && i < len(addrs); i++ {
+			vp.Assert(addrs[i] == addr+int32(i), "load-addrs")
+		}
+		vp.Assert(len(op.MemoryWrite(e.ctx, 0)) == 0, "no-mem-write")
+		exe, err := op.Run(e.ctx, nil, pc, []int8{m0, m1, m2, m3}[:k], 0)
+		e.regResult(exe, err, rd, want)
+		vp.Assert(!exe.PcChange, "no-pc-change")
+		e.unchanged()
+	case "sb", "sh", "sw":
+		base, data := p[0], p[1]
+		off := vp.I32("off")
+		addr := e.val(base) + off
+		d := uint32(e.val(data))
+		var op InstructionRunner
+		var k int
+		switch mn {
+		case "sb":
+			op, k = &sb{rs: data, offset: off, rd: base}, 1
+		case "sh":
+			op, k = &sh{rs: data, offset: off, rd: base}, 2
+		case "sw":
+			op, k = &sw{rs: data, offset: off, rd: base}, 4
+		}
+		c02decl(op, []RegisterType{base, data}, nil)
+		addrs := op.MemoryWrite(e.ctx, 0)
+		vp.Assert(len(addrs) == k, "store-addrs")
+		for i := 0; i < k && i < len(addrs); i++ {
+			vp.Assert(addrs[i] == addr+int32(i), "store-addrs")
+		}
+		vp.Assert(len(op.MemoryRead(e.ctx, 0)) == 0, "no-mem-read")
+		exe, err := op.Run(e.ctx, nil, pc, nil, 0)
+		vp.Assert(err == nil, "err")
+		vp.Assert(exe.MemoryChange && !exe.RegisterChange && !exe.PcChange && !exe.Return, "flags")
+		vp.Assert(len(exe.MemoryChanges) == k, "stored-count")
+		for i := 0; i < k; i++ {
+			got, ok := exe.MemoryChanges[addr+int32(i)]
+			vp.Assert(ok, "stored-addr")
+			vp.Assert(uint8(got) == uint8(d>>(8*uint(i))), "stored-bytes")
+		}
+		e.unchanged()
+	case "nop", "ret":
+		var op InstructionRunner
+		if mn == "nop" {
+			op = &nop{}
+		} else {
+			op = &ret{}
+		}
+		c02decl(op, nil, nil)
+		c02noMem(e, op)
+		exe, err := op.Run(e.ctx, nil, pc, nil, 0)
+		vp.Assert(err == nil, "err")
+		vp.Assert(!exe.RegisterChange && !exe.MemoryChange && !exe.PcChange && exe.Return == (mn == "ret"), "flags")
+		e.unchanged()
+	default:
+		panic("VerifC02: unknown mnemonic " + mn)
+	}
+	vp.Cover("end")
+}
+
+// VerifC02Parse: the observation point named by the property — a
+// one-instruction Application built by risc.Parse — decodes to the same op the
+// struct-level harness checks (concrete text from job parameter "text"; the
+// mnemonic's InstructionType and register sets are compared with "want").
+func VerifC02Parse() {
+	app, err := Parse(vp.S("text"))
+	vp.Assert(err == nil && len(app.Instructions) == 1, "parse")
+	if err != nil || len(app.Instructions) != 1 {
+		return
+	}
+	op := app.Instructions[0]
+	vp.Assert(op.InstructionType().String() == vp.S("type"), "instruction-type")
+	vp.Cover("end")
 }
